@@ -180,9 +180,9 @@ let () =
         let res =
           match which with
           | "merge" -> Some (mergesort leb oob (base_sort ty) a0 (n_of_int n))
-          | "qt" -> qsort_inner leb oob (base_sort ty) (qt_params (n_of_int (int_of_string p1)))
+          | "qt" -> qsort_inner leb oob (n_of_int n) (base_sort ty) (qt_params (n_of_int (int_of_string p1)))
                       (nat_of_int (int_of_string fuel)) (nat_of_int (int_of_string wfuel)) a0 N0 (n_of_int n)
-          | _ -> qsort_inner leb oob (base_sort ty) (qutil_params (n_of_int (int_of_string p1)) (n_of_int (int_of_string p2)))
+          | _ -> qsort_inner leb oob (n_of_int n) (base_sort ty) (qutil_params (n_of_int (int_of_string p1)) (n_of_int (int_of_string p2)))
                    (nat_of_int (int_of_string fuel)) (nat_of_int (int_of_string wfuel)) a0 N0 (n_of_int n) in
         (match res with
          | None -> print_endline "s outoffuel"
